@@ -13,7 +13,7 @@ import omega.symbolic.fixpoint as fx
 
 from ovc import spec, fixghost
 from contracts.fixpoint import (
-    set_mode, snapshot, independent_of, cpre_of, step_stub,
+    set_mode, snapshot, independent_of, cpre_of, step_stub, primed_lists_ok,
     _state_pred_maker, _optional, _syntactic, is_state_pred_syntactic)
 from contracts.gr1_streett import _setup_game, _explicit_game, _index_is
 
@@ -75,6 +75,8 @@ def ai_stub(ctx, tE, tS, log, after=None):
     cnt = [0]
 
     def stub(inside, goal, aut):
+        w.oblige('call _attractor_inside: requires primed variable lists consistent with env / sys lists',
+                 z3.BoolVal(primed_lists_ok(aut)), kind='pre')
         w.oblige('call _attractor_inside: requires state predicates',
                  z3.BoolVal(is_state_pred_syntactic(w, inside)
                             and is_state_pred_syntactic(w, goal)), kind='pre')
@@ -192,6 +194,8 @@ def ci_stub(ctx, tE, tS, tg, log, after=None):
     cnt = [0]
 
     def stub(z, hold, aut):
+        w.oblige('call _cycle_inside: requires primed variable lists consistent with env / sys lists',
+                 z3.BoolVal(primed_lists_ok(aut)), kind='pre')
         w.oblige('call _cycle_inside: requires state predicates',
                  z3.BoolVal(is_state_pred_syntactic(w, z)
                             and is_state_pred_syntactic(w, hold)), kind='pre')
